@@ -284,7 +284,9 @@ def call_name(call: ast.Call) -> Optional[str]:
     return dotted(call.func)
 
 
-def callee_attr(call: ast.Call) -> Optional[str]:
+def callee_attr(call) -> Optional[str]:
+    if not isinstance(call, ast.Call):
+        return None
     if isinstance(call.func, ast.Attribute):
         return call.func.attr
     if isinstance(call.func, ast.Name):
